@@ -54,6 +54,17 @@ func condName(v ssa.Value) (name string, flipped bool) {
 		if st, ok := x.X.Type().Underlying().(*types.Struct); ok {
 			return "field:" + st.Field(x.Field).Name(), false
 		}
+	case *ssa.Extract:
+		// the ok of a comma-ok call (only named for the rules that ask for it)
+		if condNameOK && x.Index > 0 {
+			if call, ok := x.Tuple.(*ssa.Call); ok {
+				if bt, isB := x.Type().Underlying().(*types.Basic); isB && bt.Kind() == types.Bool {
+					if n := callName(call); n != "" {
+						return "ok:" + n + "#" + call.Name(), false
+					}
+				}
+			}
+		}
 	case *ssa.BinOp:
 		var side func(v ssa.Value) string
 		side = func(v ssa.Value) string {
@@ -88,6 +99,9 @@ func condName(v ssa.Value) (name string, flipped bool) {
 			if cv, ok := v.(*ssa.Convert); ok {
 				return side(cv.X)
 			}
+			if condNameOK && v.Name() != "" {
+				return "%" + v.Name() // value-specific name (for the rules that switch it on)
+			}
 			return "?"
 		}
 		l, r := side(x.X), side(x.Y)
@@ -113,6 +127,9 @@ func condName(v ssa.Value) (name string, flipped bool) {
 	}
 	return "", false
 }
+
+// condNameOK makes condName name the boolean result of a comma-ok call ("ok:<callee>"); switched on by single rules.
+var condNameOK bool
 
 // purePredicates are side-effect-free tests of their single argument: two evaluations on the same argument agree,
 // so a path state holding both outcomes is infeasible and is dropped.
@@ -401,7 +418,7 @@ func (c *C) orderFlow(fn *ssa.Function, reset func(ssa.Instruction) bool, allEdg
 			}
 			phiFacts(from, to, n)
 			for f := range n {
-				if strings.HasPrefix(f, "T|pure:") && n["F|"+f[2:]] {
+				if (strings.HasPrefix(f, "T|pure:") || strings.HasPrefix(f, "T|ok:")) && n["F|"+f[2:]] {
 					infeasible = true
 				}
 			}
